@@ -4,7 +4,7 @@ Each statement is printed by Coq itself (Check), so the file repeats every state
 Run from /verif/coq after the development has been compiled:  python3 ../tools/mkprops.py [Cxx ...]"""
 import subprocess, sys, re, os
 
-IMP = "Model Sem InvDb InvSwap InvMint InvMelt Corollaries Queries Footprint HRel Global GlobalQuote GlobalValue GlobalErr GlobalQuery GlobalMelt GlobalKeys Cuts CutOrder"
+IMP = "Model Sem InvDb InvSwap InvMint InvMelt Corollaries Queries Footprint HRel Global GlobalQuote GlobalValue GlobalErr GlobalQuery GlobalMelt GlobalKeys Cuts CutOrder Conc Races GlobalBalance"
 
 GLOSSARY = """   Reading guide (definitions in coq/Mint/*.v):
      world            = store (tables spent/pending/signatures/mint quotes/melt quotes/keysets) + Lightning environment
@@ -27,14 +27,14 @@ GLOSSARY = """   Reading guide (definitions in coq/Mint/*.v):
 PROPS = {
  'C01': ("No double spend: an ecash proof is redeemed at most once, ever", [
    'hrun_inv', 'hrun_ext', 'spent_once', 'spent_forever', 'state_of_spent_forever', 'spent_stays_refused',
-   'reach_good', 'at_most_once', 'locked_or_spent_refused',
+   'reach_good', 'at_most_once', 'concurrent_at_most_once', 'locked_or_spent_refused', 'swap_melt_race',
    'swap_rejects_represented', 'swap_rejects_duplicate', 'melt_rejects_represented']),
  'C02': ("No inflation: outstanding ecash plus Lightning outflow never exceeds inflow", [
    'no_inflation', 'swap_cut_signatures_imply_spent', 'swap_balanced', 'mint_within_quote', 'melt_burns_enough', 'validated_covers',
    'melt_fee_limit', 'melt_fee_limit_mpp', 'request_melt_quote_fee']),
  'C03': ("A mint quote is issued at most once per payment, never before it is paid", [
    'quote_issued_at_most_once_per_payment', 'step_qinv', 'mint_needs_payment', 'mint_within_quote', 'mint_once',
-   'mint_marks_issued', 'mint_nut20', 'watcher_only_unpaid', 'quotes_never_altered']),
+   'mint_marks_issued', 'mint_nut20', 'watcher_only_unpaid', 'quotes_never_altered', 'mint_mint_race']),
  'C04': ("Only genuine mint signatures are honoured, at exactly their signed amount", [
    'check_proof_iff', 'check_proofs_forall', 'swap_accepts_only_genuine']),
  'C05': ("Melt inputs follow the Lightning outcome: spent iff paid, released iff failed", [
@@ -53,14 +53,15 @@ PROPS = {
    'check_state_general', 'check_state_exact', 'signatures_are_exactly_what_was_returned', 'restore_is_exact', 'restore_exact',
    'restore_finds_issued', 'state_of_spent_forever', 'sig_forever']),
  'C16': ("Reported balances are exact and configured limits are enforced", [
+   'balance_never_negative', 'step_bi', 'binv_bound', 'honest_history_ok',
    'issued_view_total', 'redeemed_view_total', 'total_balance_exact', 'signatures_are_exactly_what_was_returned',
    'mint_limit_enforced', 'melt_limit_enforced', 'balance_limit_enforced', 'huge_quote_refused', 'info_disabled_iff']),
 }
 
 NOTES = {
- 'C01': "   at_most_once: over every sequential history, the secrets consumed by successful swaps and PAID melts are pairwise distinct.\n   hrun_inv / hrun_ext / spent_stays_refused hold for EVERY history item kind (faults, crashes, schedules).\n   Concurrent swap||melt on one proof is NOT safe in the code (known finding, reproduced by the c01-sched stream and by the model).\n",
+ 'C01': "   at_most_once: over every sequential history, the secrets consumed by successful swaps and PAID melts are pairwise distinct.\n   hrun_inv / hrun_ext / spent_stays_refused hold for EVERY history item kind (faults, crashes, schedules).\n   concurrent_at_most_once: for ANY concurrent batch and ANY schedule at call granularity, two requests that consume the same secret\n   are never both successful as far as the tables can tell (both insert a row with that Y; the unique key refuses the second).\n   Concurrent swap||melt on one proof is NOT safe in the code: swap_melt_race is the computed schedule (the melt's Lightning payment\n   goes out before its insert is refused); known finding, reproduced on the real mint by the c01-sched stream.\n",
  'C02': "   no_inflation: hypotheses cfg_ok (a melt limit below 2^61 sat is configured, fee reserve <= amount), uint64 request amounts,\n   truthful invoice notifications.  vS/vR = true sums of signature/spent amounts, vOut = commitments (amount+fee reserve) of PAID\n   melt quotes, esett = 1 iff the backend reports the quote's invoice settled, cnt id cred = internal settlements credited to it.\n",
- 'C03': "   quote_issued_at_most_once_per_payment: ghost lists iss/cred of issuance and internal-credit events along the history (qtrace);\n   honest = the invoice subscription only reports invoices that are settled.  Concurrent MintTokens on one quote are NOT safe in the\n   code (known finding, c03-sched).\n",
+ 'C03': "   quote_issued_at_most_once_per_payment: ghost lists iss/cred of issuance and internal-credit events along the history (qtrace);\n   honest = the invoice subscription only reports invoices that are settled.  Concurrent MintTokens on one quote are NOT safe in the\n   code: mint_mint_race is the computed schedule (known finding, c03-sched).\n",
  'C05': "   ambiguous = any answer that is not a definitive success or failure; look_ambiguous w = every scripted lookup answer is ambiguous.\n",
  'C06': "   refusal_changes_nothing: quiet = all tables equal, except that an UNPAID quote whose invoice is settled may be recorded PAID.\n   Excluded: refusals caused by a Lightning-backend error (fault domain, C07).  nopanic p = no Panic leaf is reachable in p.\n",
  'C07': "   The last four are refutations: computed cuts of the model at which value is inflated / stranded / the mint cannot start;\n   the c07-cuts stream replays them (and every other cut) on the real mint; they are listed in known_findings.json.\n",
